@@ -248,10 +248,12 @@ class RF24:
         if not address:
             raise ValueError("address length cannot be 0")
         if pipe_number < 2:
-            if not pipe_number:
-                self._pipe0_read_addr = address
             for i, val in enumerate(address):
                 self._pipes[pipe_number][i] = val  # type: ignore[assignment, index]
+            if not pipe_number:
+                # remember the complete resulting address (a short `address` only
+                # alters the leading bytes) to restore it when entering RX mode
+                self._pipe0_read_addr = bytearray(self._pipes[0])  # type: ignore
             self._reg_write_bytes(RX_ADDR_P0 + pipe_number, address)
         else:
             self._pipes[pipe_number] = address[0]
